@@ -7,6 +7,7 @@ pub mod c02;
 pub mod c03;
 pub mod c04;
 pub mod c05;
+pub mod c06;
 pub mod c07;
 pub mod c08;
 pub mod c09;
@@ -18,6 +19,7 @@ pub mod c14;
 pub mod c15;
 pub mod c16;
 pub mod c17;
+pub mod c18;
 
 pub fn registry() -> Vec<Entry> {
     vec![
@@ -61,6 +63,18 @@ pub fn registry() -> Vec<Entry> {
             "clean base program (generated conforming, analyzer-clean, else skipped) x 16 violation classes (unsaved saved register modified; sp not restored (epilogue adjustment deleted or wrong); ra not restored; temporary read after a call; never-assigned temporary read in main / in a function; never-assigned saved register read; dead assignment; arithmetic write to zero; stack access at or above the entry sp; instructions in .data; ecall number loaded from memory; straight-line code after ret/exit; plain jump into a function; fall-through into the next function; called function first in the program) x admissible site/register. The mutated program must get a diagnostic of the class's kind located in the class's acceptance set (injected instruction / operand, or any instruction of the function writing the register for sp/ra). Where an execution can show the fault, the convention monitor must confirm it on the mutant first. Non-trivial = injection applied and (where observable) confirmed; evidence tabulates cases per class.",
             &["acceptance sets are deliberately wide where the statement does not fix which of several offending instructions is meant", "convention monitor and clean generator are the trusted base"],
         ),
+        {
+            let mut e = entry::<c06::C06>(
+                "C06",
+                2600,
+                20_000,
+                1_500_000,
+                "hostile inputs in five modes: character soup over a table with NUL, CR, quotes, backslashes, U+00A0, U+2028, BOM, emoji; token soup over the analyzer's own vocabulary (96 mnemonics/registers/directives/CSR names/labels, 40 boundary and malformed literals, punctuation); 1-4 line-level mutations of valid generated programs (delete/duplicate/swap/truncate line, drop operand, corrupt or insert a character, insert tokens) with LF or CRLF; 16 structural scaling families (runs of '.', '(', newlines, quotes; n labels; huge .word list; huge comment / operand list / literal; n labels + n branches; nested loops; diamond chains; call chains; unterminated .macro), also enumerated at fixed sizes up to 20 000 (thorough 100 000); include graphs over 1-4 in-memory files with self-inclusion, cycles, missing and unquoted targets. Each case runs RVParser::run (library entry point) and the staged pipeline in-process under catch_unwind with a deterministic sweep limit, in the overflow-checked and in the release profile; a worker that dies (stack overflow, abort, OOM) is re-run alone to confirm. One case in 25 is also written to disk and linted by the rva binary (dev/release) in one of 9 output modes under a CPU-time limit. Work bound: sweeps <= 4*(4+2n) / 4+2n from hook counters. Non-trivial = reached the parser with a node or an error, or a structural family.",
+                &["a wall-clock watchdog expiry is inconclusive (exit 2), only the CPU-time limit and the sweep limit count as non-termination", "stack size is the default 8 MiB of the worker process"],
+            );
+            e.release_too = true;
+            e
+        },
         entry::<c07::C07>(
             "C07",
             400,
@@ -158,6 +172,14 @@ pub fn registry() -> Vec<Entry> {
                 "own literal evaluator (the generator builds each spelling from a known mathematical value)",
                 "lui outside 20 bits, CSR numbers outside 0..4095 and decimal 2^31..2^32-1 are left unconstrained (the statement does not settle them)",
             ],
+        ),
+        entry::<c18::C18>(
+            "C18",
+            1700,
+            480,
+            20_000,
+            "single- and multi-file programs (four sources, optional malformed lines, optional include split, all surface styles incl. leading blank lines, tabs and comments) written to a scratch directory and linted by the rva binary (dev, one in four release) in 8 modes: compact / pretty / JSON x default / --all-files, plus colour variants. Checked: JSON parses with the documented shape (unknown fields rejected); compact, pretty and JSON show the same (file, line, columns, severity, title) items under the same file selection; 'found in other files' counts; pretty and compact list the same items in the same order; each pretty excerpt is the source line with the marker under the reported columns; colour output minus ANSI equals --no-color; items are ordered by position within each file; titles non-empty; one severity per kind; RVParser::run over an in-memory reader with the same files gives the CLI's --all-files list. Non-trivial = >= 2 diagnostics.",
+            &["JSON carries no file filter: it is compared with --all-files output and, filtered to the base file, with the default output", "a CLI crash or non-zero exit is counted here and reported by C06"],
         ),
     ]
 }
